@@ -117,13 +117,15 @@ class QueueHarness(explorer.Harness):
 
   def __init__(self, prods=(1,), cap=0, cons=('get',), declared=True, fail=None,
                stop=None, timeout=None, ignore_error=False, mode='preempt',
-               starve=None, late=False, gate=0):
+               starve=None, late=False, gate=0, stop_after_fail=False,
+               late_cons=False):
     self.params = dict(prods=list(prods), cap=cap,
                        cons=[list(c) if not isinstance(c, str) else c
                              for c in cons],
                        declared=declared, fail=fail, stop=stop, timeout=timeout,
                        ignore_error=ignore_error, mode=mode, starve=starve,
-                       late=late, gate=gate)
+                       late=late, gate=gate, stop_after_fail=stop_after_fail,
+                       late_cons=late_cons)
     self.mode = mode
     prepare()
 
@@ -160,8 +162,12 @@ class QueueHarness(explorer.Harness):
         raise
       except BaseException as e:  # pylint: disable=broad-except
         self.prod_end[i] = ('exc', e)
+      finally:
+        if fail_at is not None:
+          failed.set()
 
     started = [vthreading.Event() for _ in range(nprod)]
+    failed = vthreading.Event()
 
     def stopper():
       try:
@@ -170,6 +176,10 @@ class QueueHarness(explorer.Harness):
           # producer that starts after the stop is the 'late' configuration)
           for ev in started:
             ev.wait()
+        if p.get('stop_after_fail'):
+          # the stop request arrives after the failure has been recorded (the
+          # failing producer has returned): it must not erase the failure
+          failed.wait()
         if p['stop'] == 'exc':
           self.stop_exc = Stopper('stop')
           q.maybe_stop(self.stop_exc)
@@ -185,12 +195,26 @@ class QueueHarness(explorer.Harness):
       ts = []
       for i in range(nprod):
         ts.append(vthreading.Thread(target=producer, args=(i,), name=f'prod{i}'))
-      for c in self.consumers:
-        ts.append(vthreading.Thread(target=c.run, args=(q,), name=f'cons{c.cid}'))
+      cons = [vthreading.Thread(target=c.run, args=(q,), name=f'cons{c.cid}')
+              for c in self.consumers]
+      if not p.get('late_cons'):
+        ts += cons
+      st = None
       if p['stop']:
-        ts.append(vthreading.Thread(target=stopper, name='stopper'))
+        st = vthreading.Thread(target=stopper, name='stopper')
+        ts.append(st)
       for t in ts:
         t.start()
+      if p.get('late_cons'):
+        # the consumers look at the queue only after the stop request (or, if
+        # there is none, after the failing producer) has finished
+        if st is not None:
+          st.join()
+        else:
+          failed.wait()
+        for t in cons:
+          t.start()
+        ts += cons
       for t in ts:
         t.join()
     return body
@@ -281,7 +305,10 @@ class QueueHarness(explorer.Harness):
     if p['fail'] is not None:
       parts.append('producer-fails' + ('-ignored' if p['ignore_error'] else ''))
     if p['stop']:
-      parts.append('stop-' + p['stop'] + ('-late' if p.get('late') else ''))
+      parts.append('stop-' + p['stop'] + ('-late' if p.get('late') else '')
+                   + ('-after-failure' if p.get('stop_after_fail') else ''))
+    if p.get('late_cons'):
+      parts.append('consumers-come-later')
     if p['timeout'] is not None:
       parts.append('timeout-' + str(p['starve']))
     return '+'.join(parts)
@@ -349,6 +376,10 @@ class QueueHarness(explorer.Harness):
     failing = fail is not None and not p['ignore_error']
     for c in self.consumers:
       if failing and not p['stop']:
+        ok = ends(c, 'boom')
+        miss = 'consumer-missed-producer-exception'
+      elif failing and p['stop'] == 'plain' and p.get('stop_after_fail'):
+        # the failure was recorded before the plain stop request arrived
         ok = ends(c, 'boom')
         miss = 'consumer-missed-producer-exception'
       elif failing and p['stop'] == 'plain':
